@@ -547,7 +547,14 @@ func (g *adaptive) step() bool {
 		g.feat["type"] = true
 		return g.emit(psref.TX("dup"), psref.TX("type"))
 	case 19: // well-known objects
-		switch g.draw(5, "wellknown") {
+		switch g.draw(7, "wellknown") {
+		case 5:
+			// the library's StandardEncoding is an ordinary array: a program
+			// may store into its own copy (and only into its own)
+			g.feat["stdenc-write"] = true
+			return g.emit(psref.TX("StandardEncoding"), psref.TI(int64(65+g.draw(6, "enccodew"))), psref.TL("Hacked"), psref.TX("put"))
+		case 6:
+			return g.emit(psref.TX("StandardEncoding"), psref.TI(int64(65+g.draw(6, "enccoder"))), psref.TX("get"))
 		case 4:
 			g.feat["internaldict"] = true
 			return g.emit(psref.TI(1183615869), psref.TX("internaldict"))
